@@ -334,11 +334,27 @@ ConnDirFlags ShapeConnectionPin::directions(void) const
     if (m_visibility_directions == ConnDirNone)
     {
         // None is set, use the defaults:
+        // The pin is on a side of the shape under the same conditions 
+        // that position() uses.  The higher sides are written differently
+        // for proportional and for absolute offsets.
+        double xMax = ATTACH_POS_RIGHT;
+        double yMax = ATTACH_POS_BOTTOM;
+        double xMaxAlt = xMax;
+        double yMaxAlt = yMax;
+        if (!m_using_proportional_offsets && m_shape)
+        {
+            const Box shapeBox = m_shape->polygon().offsetBoundingBox(0.0);
+            xMax = ATTACH_POS_MAX_OFFSET;
+            yMax = ATTACH_POS_MAX_OFFSET;
+            xMaxAlt = shapeBox.width();
+            yMaxAlt = shapeBox.height();
+        }
+
         if (m_x_offset == ATTACH_POS_LEFT)
         {
             visDir |= ConnDirLeft;
         }
-        else if (m_x_offset == ATTACH_POS_RIGHT)
+        else if ((m_x_offset == xMax) || (m_x_offset == xMaxAlt))
         {
             visDir |= ConnDirRight;
         }
@@ -347,7 +363,7 @@ ConnDirFlags ShapeConnectionPin::directions(void) const
         {
             visDir |= ConnDirUp;
         }
-        else if (m_y_offset == ATTACH_POS_BOTTOM)
+        else if ((m_y_offset == yMax) || (m_y_offset == yMaxAlt))
         {
             visDir |= ConnDirDown;
         }
